@@ -8,75 +8,86 @@ use deserr::{DeserializeError, ErrorKind, IntoValue, MergeWithError, Sequence, V
 use std::ops::ControlFlow;
 
 pub const CAP: usize = 8;
-pub const PATH_MAX: usize = 4;
+pub const PATH_MAX: usize = 3;
 
+/// a location, packed: bits 0..2 = number of steps (saturating at 3 recorded steps; bit 2 = "longer than 3"),
+/// then 3 x 9 bits: is_key (1) | dictionary index or sequence index (8)
 #[derive(Clone, Copy, PartialEq, Eq, Debug)]
-pub struct Step { pub is_key: bool, pub v: u16 }
-#[derive(Clone, Copy, PartialEq, Eq, Debug)]
-pub struct Path { pub len: u8, pub steps: [Step; PATH_MAX] }
+pub struct Path(pub u32);
 impl Path {
-    pub const ROOT: Path = Path { len: 0, steps: [Step { is_key: false, v: 0 }; PATH_MAX] };
-    pub fn key(self, k: u8) -> Path { self.push(Step { is_key: true, v: k as u16 }) }
-    pub fn idx(self, i: usize) -> Path { self.push(Step { is_key: false, v: i as u16 }) }
-    pub fn push(mut self, s: Step) -> Path {
-        if (self.len as usize) < PATH_MAX { self.steps[self.len as usize] = s; }
-        self.len += 1;
-        self
+    pub const ROOT: Path = Path(0);
+    pub fn len(self) -> u32 { self.0 & 7 }
+    pub fn step(self, i: u32) -> u32 { (self.0 >> (3 + 9 * i)) & 0x1ff }
+    fn push(self, s: u32) -> Path {
+        let n = self.len();
+        if n >= PATH_MAX as u32 { return Path((self.0 & !7) | 4 | (n & 3)); }
+        Path(((self.0 & !7) | (n + 1)) | ((s & 0x1ff) << (3 + 9 * n)))
     }
+    pub fn key(self, k: u8) -> Path { self.push(256 | k as u32) }
+    pub fn idx(self, i: usize) -> Path { self.push((i as u32) & 0xff) }
     pub fn is_prefix_of(&self, o: &Path) -> bool {
-        if self.len > o.len { return false; }
-        let mut i = 0;
-        while i < self.len as usize && i < PATH_MAX { if self.steps[i] != o.steps[i] { return false; } i += 1; }
-        true
+        let n = self.len();
+        if n > o.len() || n > PATH_MAX as u32 { return false; }
+        let bits = 9 * n;
+        let mask: u32 = if bits == 0 { 0 } else { ((1u32 << bits) - 1) << 3 };
+        (self.0 & mask) == (o.0 & mask)
     }
 }
 pub fn path_of(loc: ValuePointerRef) -> Path {
-    let mut rev = [Step { is_key: false, v: 0 }; PATH_MAX];
+    // walk back (newest step first), then push oldest first
+    let mut rev = [0u32; PATH_MAX + 1];
     let mut n = 0usize;
     let mut cur = loc;
     loop {
         match cur {
             ValuePointerRef::Origin => break,
-            ValuePointerRef::Key { key, prev } => { if n < PATH_MAX { rev[n] = Step { is_key: true, v: word_id(key) as u16 }; } n += 1; cur = *prev; }
-            ValuePointerRef::Index { index, prev } => { if n < PATH_MAX { rev[n] = Step { is_key: false, v: index as u16 }; } n += 1; cur = *prev; }
+            ValuePointerRef::Key { key, prev } => { if n <= PATH_MAX { rev[n] = 256 | word_id(key) as u32; } n += 1; cur = *prev; }
+            ValuePointerRef::Index { index, prev } => { if n <= PATH_MAX { rev[n] = (index as u32) & 0xff; } n += 1; cur = *prev; }
         }
     }
     let mut p = Path::ROOT;
-    p.len = n as u8;
     let mut i = 0;
-    while i < n && i < PATH_MAX { p.steps[i] = rev[n.min(PATH_MAX) - 1 - i]; i += 1; }
+    while i < n && i <= PATH_MAX { p = p.push(rev[n.min(PATH_MAX + 1) - 1 - i]); i += 1; }
     p
 }
+/// short signature of a location: what a user function can say about the location it was given
+pub fn pathsig(p: &Path) -> u32 { p.0 % 8191 }
 
 pub const K_KIND: u8 = 0; pub const K_MISSING: u8 = 1; pub const K_UNKNOWN_KEY: u8 = 2; pub const K_UNKNOWN_VALUE: u8 = 3;
 pub const K_BADLEN: u8 = 4; pub const K_UNEXPECTED: u8 = 5; pub const K_FOREIGN: u8 = 6; pub const K_HANDOVER: u8 = 255;
 
-/// one call made to the error type
+/// one call made to the error type, packed into one word (cheap to copy and compare under CBMC):
+/// kind (8) | stop (1) | path (30) | a (13) | b (12)
+///   a: K_KIND: accepted bitmask | actual kind index << 8 ; K_MISSING/K_UNKNOWN_*: dictionary index of the field/key/value;
+///      K_BADLEN: actual len | expected << 4 ; K_FOREIGN: payload of the foreign error (< 8192)
+///   b: K_UNKNOWN_*: positional hash of the accepted list ; K_KIND: number of entries of the accepted slice ; K_FOREIGN: 2nd payload
 #[derive(Clone, Copy, PartialEq, Eq, Debug)]
-pub struct Evt {
-    pub kind: u8,
-    pub path: Path,
-    pub stop: bool,
-    /// K_KIND: accepted bitmask | actual kind index << 8 ; K_MISSING/K_UNKNOWN_*: dictionary index of the field/key/value;
-    /// K_BADLEN: actual len | expected << 8 ; K_FOREIGN: payload of the foreign error
-    pub a: u32,
-    /// K_UNKNOWN_*: positional hash of the accepted list (see `list_hash`); K_KIND: number of entries of the accepted slice
-    pub b: u32,
+pub struct Evt(pub u64);
+impl Evt {
+    pub fn new(kind: u8, path: Path, stop: bool, a: u32, b: u32) -> Evt {
+        Evt((kind as u64) | ((stop as u64) << 8) | (((path.0 & 0x3fff_ffff) as u64) << 9) | (((a & 0x1fff) as u64) << 39) | (((b & 0xfff) as u64) << 52))
+    }
+    pub fn kind(&self) -> u8 { (self.0 & 0xff) as u8 }
+    pub fn stop(&self) -> bool { (self.0 >> 8) & 1 == 1 }
+    pub fn path(&self) -> Path { Path(((self.0 >> 9) & 0x3fff_ffff) as u32) }
+    pub fn a(&self) -> u32 { ((self.0 >> 39) & 0x1fff) as u32 }
+    pub fn b(&self) -> u32 { ((self.0 >> 52) & 0xfff) as u32 }
+    pub fn is_report(&self) -> bool { self.kind() != K_HANDOVER }
+    pub fn unstopped(&self) -> Evt { Evt(self.0 & !(1u64 << 8)) }
 }
-pub const NO_EVT: Evt = Evt { kind: 0, path: Path::ROOT, stop: false, a: 0, b: 0 };
-impl Evt { pub fn is_report(&self) -> bool { self.kind != K_HANDOVER } }
+pub const NO_EVT: Evt = Evt(0);
 
 pub fn list_hash(l: &[&str]) -> u32 {
     let mut h: u32 = l.len() as u32;
     let mut i = 0;
     while i < l.len() { h = h.wrapping_mul(31).wrapping_add(word_id(l[i]) as u32 + 1); i += 1; }
-    h
+    h & 0xfff
 }
 pub fn ids_hash(l: &[u8]) -> u32 {
     let mut h: u32 = l.len() as u32;
     let mut i = 0;
     while i < l.len() { h = h.wrapping_mul(31).wrapping_add(l[i] as u32 + 1); i += 1; }
-    h
+    h & 0xfff
 }
 
 #[derive(Clone, Copy, Debug)]
@@ -120,7 +131,7 @@ pub fn view<V: IntoValue>(k: &ErrorKind<V>) -> (u8, u32, u32) {
         ErrorKind::MissingField { field } => (K_MISSING, word_id(field) as u32, 0),
         ErrorKind::UnknownKey { key, accepted } => (K_UNKNOWN_KEY, word_id(key) as u32, list_hash(accepted)),
         ErrorKind::UnknownValue { value, accepted } => (K_UNKNOWN_VALUE, word_id(value) as u32, list_hash(accepted)),
-        ErrorKind::BadSequenceLen { actual, expected } => (K_BADLEN, (actual.len() as u32) | ((*expected as u32) << 8), 0),
+        ErrorKind::BadSequenceLen { actual, expected } => (K_BADLEN, ((actual.len() as u32) & 15) | (((*expected as u32) & 15) << 4), 0),
         ErrorKind::Unexpected { .. } => (K_UNEXPECTED, 0, 0),
     }
 }
@@ -129,7 +140,7 @@ impl DeserializeError for Rec {
     fn error<V: IntoValue>(self_: Option<Self>, error: ErrorKind<V>, location: ValuePointerRef) -> ControlFlow<Self, Self> {
         let stop = answer();
         let (kind, a, b) = view(&error);
-        let e = Evt { kind, path: path_of(location), stop, a, b };
+        let e = Evt::new(kind, path_of(location), stop, a, b);
         unsafe { GLOBAL.push(e); CALLS += 1; }
         let mut r = self_.unwrap_or(Rec::EMPTY);
         r.push(e);
@@ -139,7 +150,7 @@ impl DeserializeError for Rec {
 impl MergeWithError<Rec> for Rec {
     fn merge(self_: Option<Self>, other: Rec, merge_location: ValuePointerRef) -> ControlFlow<Self, Self> {
         let stop = answer();
-        let e = Evt { kind: K_HANDOVER, path: path_of(merge_location), stop, a: 0, b: 0 };
+        let e = Evt::new(K_HANDOVER, path_of(merge_location), stop, 0, 0);
         unsafe { GLOBAL.push(e); CALLS += 1; }
         let mut r = self_.unwrap_or(Rec::EMPTY);
         r.append(&other);
@@ -149,11 +160,11 @@ impl MergeWithError<Rec> for Rec {
 }
 /// a foreign (user function) error: handed to `MergeWithError<Foreign>`, recorded as one K_FOREIGN report
 #[derive(Clone, Copy, Debug, PartialEq, Eq)]
-pub struct Foreign(pub u32);
+pub struct Foreign(pub u32, pub u32);
 impl MergeWithError<Foreign> for Rec {
     fn merge(self_: Option<Self>, other: Foreign, merge_location: ValuePointerRef) -> ControlFlow<Self, Self> {
         let stop = answer();
-        let e = Evt { kind: K_FOREIGN, path: path_of(merge_location), stop, a: other.0, b: 0 };
+        let e = Evt::new(K_FOREIGN, path_of(merge_location), stop, other.0, other.1);
         unsafe { GLOBAL.push(e); CALLS += 1; }
         let mut r = self_.unwrap_or(Rec::EMPTY);
         r.push(e);
@@ -166,7 +177,7 @@ impl MergeWithError<Foreign> for Rec {
 /// S1: an event answered Break is followed, if by anything, by a hand-over
 pub fn stop_then_handover(r: &Rec) -> bool {
     let mut i = 0;
-    while i + 1 < r.n as usize && i + 1 < CAP { if r.ev[i].stop && r.ev[i + 1].is_report() { return false; } i += 1; }
+    while i + 1 < r.n as usize && i + 1 < CAP { if r.ev[i].stop() && r.ev[i + 1].is_report() { return false; } i += 1; }
     true
 }
 /// U: events up to and including the first stopped one equal the keep-going run (stop flags erased)
@@ -175,11 +186,11 @@ pub fn agree_until_stop(r: &Rec, spec: &Rec) -> bool {
     while i < r.n as usize && i < CAP {
         if i >= spec.n as usize { return false; }
         let (a, b) = (r.ev[i], spec.ev[i]);
-        if a.kind != b.kind || a.path != b.path || a.a != b.a || a.b != b.b { return false; }
-        if a.stop { return true; }
+        if a.unstopped() != b.unstopped() { return false; }
+        if a.stop() { return true; }
         i += 1;
     }
     true
 }
-pub fn no_stop(r: &Rec) -> bool { let mut i = 0; while i < r.n as usize && i < CAP { if r.ev[i].stop { return false; } i += 1; } true }
-pub fn all_under(r: &Rec, p: &Path) -> bool { let mut i = 0; while i < r.n as usize && i < CAP { if !p.is_prefix_of(&r.ev[i].path) { return false; } i += 1; } true }
+pub fn no_stop(r: &Rec) -> bool { let mut i = 0; while i < r.n as usize && i < CAP { if r.ev[i].stop() { return false; } i += 1; } true }
+pub fn all_under(r: &Rec, p: &Path) -> bool { let mut i = 0; while i < r.n as usize && i < CAP { if !p.is_prefix_of(&r.ev[i].path()) { return false; } i += 1; } true }
